@@ -33,8 +33,45 @@ PARTIAL = [
     "singular normal equations (zero weights): only fitted values at positive weights are compared (unique there, "
     "C05.yhat_unique_on_support)",
 ]
+TRUSTED_EXTRA = [
+    "harness/c05_translate.py: syntactic map of the closed formulas of FDApy/preprocessing/smoothing/psplines.py (defaults of "
+    "PSplines.__init__, n_functions in fit/predict, np.diff order/axis and Gram product of the penalty, np.repeat/np.tile and the "
+    "arguments of _create_permutation for bwb_mat and the inverse, _create_permutation, _row_tensor, _rotate) onto Lean terms and the "
+    "NumPy combinators of lean/FDAModel/GLAM.lean (arangeN, outerAdd, flattenF/C, repeatL, tileL, kronOnesRight/Left)",
+]
 EXACT_MAX = dict(quick=20, thorough=45)
 _TIER = ["quick"]
+
+
+import os as _os
+
+import common as _common
+import c05_translate as _translator
+
+GEN_FILE = _os.path.join(_common.LEAN_DIR, "FDAModel", "Generated", "PSplineFormulas.lean")
+TRANSLATOR_NOTE = None
+
+
+def translate():
+    """Regenerate Generated/PSplineFormulas.lean from what the source says now.  A source whose shape the translator does not recognise
+    (a refactor) is NOT an alarm: the reference translation stored beside the translator is used (not what an earlier run left in
+    Generated/), a note is printed and the evidence says that for this run these formulas are tied to the source by the
+    correspondence only.  Only a successful translation can break the `*_src_eq_model` obligations."""
+    global TRANSLATOR_NOTE
+    path = _os.path.join(_common.REPO, *('FDApy', 'preprocessing', 'smoothing', 'psplines.py'))
+    here = _os.path.dirname(_os.path.abspath(__file__))
+    try:
+        src = _translator.lean_source(path)
+        TRANSLATOR_NOTE = ("translator: formulas regenerated from the source and re-proved equal to the model (C05.defaults_src_eq_model, C05.n_functions_src_eq_model, C05.penalty_src_eq_model, C05.arrangement_src_eq_model, C05.create_permutation_src_eq_model, C05.row_tensor_src_eq_model, C05.rotate_src_eq_model)")
+    except OSError as e:
+        raise _common.InfraError(f"translator: cannot read {path}: {e}")
+    except (ValueError, SyntaxError, IndexError, AttributeError, KeyError, TypeError, StopIteration) as e:
+        TRANSLATOR_NOTE = f"translator: shape of the source not recognised, tie rests on the correspondence only ({e})"
+        print("note:", TRANSLATOR_NOTE)
+        src = open(_os.path.join(here, "c05_psplineformulas_reference.lean")).read()
+    if not _os.path.exists(GEN_FILE) or open(GEN_FILE).read() != src:
+        with open(GEN_FILE, "w") as fh:
+            fh.write(src)
 
 
 # --------------------------------------------------------------------------
@@ -196,9 +233,24 @@ def _dtype_cases():
                            wscale="1/4", dtypes=dict(y=ydt, w=wdt, x=xdts[k % len(xdts)], pen=pens[k % len(pens)]))
 
 
+def _default_cases():
+    """`PSplines()` with every option left to its default: the model is given n_segments = 10, degree = 3, order 2."""
+    rng = Rng("C05-defaults")
+    for d in (1, 2):
+        dims = []
+        for _ in range(d):
+            m = rng.randint(14, 18) if d == 1 else rng.randint(4, 5)
+            x = rng.grid(m, lo=0, scale=2)
+            dims.append(dict(nseg=10, p=3, lam=rs(Fraction(1)), x=[rs(v) for v in x], wide=False, dmin=rs(x[0]), dmax=rs(x[-1])))
+        n = int(np.prod([len(dd["x"]) for dd in dims]))
+        yield dict(kind=f"fit{d}", d=d, ord=2, dims=dims, y=[rs(v) for v in rng.dyadics(n, -4, 4, 2)], w=None, wk="none", yk="rand",
+                   int_opts=False, history=False, default_penalty=(d == 1), a="1", c="2", sub=11, wscale="1/4", use_defaults=True)
+
+
 def gen_cases(rng: Rng, tier):
     _TIER[0] = tier
     yield from _dtype_cases()
+    yield from _default_cases()
     n = dict(quick=136, thorough=1400)[tier]
     plan = [1, 2, 1, 2, 3, 1, 2, 2]
     if tier == "thorough":
@@ -257,6 +309,8 @@ def _new(case):
     from FDApy.preprocessing.smoothing.psplines import PSplines
 
     dims = case["dims"]
+    if case.get("use_defaults"):  # PSplines(): the model's defaults 10 / 3 / 2 (C05.defaults_src_eq_model ties them to the source)
+        return PSplines()
     if case.get("int_opts") or case["d"] == 1 and case["sub"] % 2 == 0:
         return PSplines(n_segments=int(dims[0]["nseg"]), degree=int(dims[0]["p"]), order_penalty=case["ord"])
     return PSplines(n_segments=np.array([dd["nseg"] for dd in dims]), degree=np.array([dd["p"] for dd in dims]), order_penalty=case["ord"])
@@ -509,7 +563,11 @@ def run_impl(case):
     out["nodes_ref"] = np.asarray(ps.y_hat)[np.ix_(*[idx for idx, _ in subs])].ravel().tolist()
     # the bases the fit used (implementation's own; their correctness is C18)
     Bs = [_basis_bsplines(x, dd["nseg"] + dd["p"], dd["p"], float(F(dd["dmin"])), float(F(dd["dmax"]))) for x, dd in zip(xs, case["dims"])]
-    out["basis_ok"] = bool(all(np.allclose(b1, b2, rtol=0, atol=max(1e-12, _lowprec(case))) for b1, b2 in zip(ps.basis, Bs)))
+    out["basis_ok"] = bool(len(ps.basis) == len(Bs) and all(np.shape(b1) == np.shape(b2) and np.allclose(b1, b2, rtol=0, atol=max(1e-12, _lowprec(case)))
+                                                           for b1, b2 in zip(ps.basis, Bs)))
+    if not out["basis_ok"]:
+        # the object did not use the requested sizes / degrees / domain: the explicit reference is built from what it DID use
+        Bs = [np.asarray(b_) for b_ in ps.basis]
     # ---- dense Kronecker reference (independent NumPy code)
     ref = _dense_ref(Bs, w, y, [float(F(dd["lam"])) for dd in case["dims"]], case["ord"])
     out["ref"] = {k: (v.tolist() if isinstance(v, np.ndarray) else v) for k, v in ref.items()}
@@ -849,6 +907,8 @@ def classify(case, impl):
     tags.append("mode:" + ("exact" if M <= EXACT_MAX[_TIER[0]] else "residual"))
     if any(dd["wide"] for dd in case["dims"]):
         tags.append("explicit-domain")
+    if case.get("use_defaults"):
+        tags.append("options:all-defaults")
     if case.get("history"):
         tags.append("history:refit")
     if impl and "interleave_bad" in impl:
@@ -865,4 +925,4 @@ def classify(case, impl):
 
 
 def extra_coverage(cases, impls, models):
-    return dict(numeric=dict(_STATS))
+    return dict(numeric=dict(_STATS), translator=TRANSLATOR_NOTE)
